@@ -16,14 +16,17 @@ RTOL = 1e-10
 
 # ------------------------------------------------------------------ H part
 VALS = [0.0, 0.5, 2.0]
+# rates on very different scales and corrections far below the value they correct: a slow rate
+# (1/(200 ns) in 1/fs), a rate, and the same rate corrected by 1e-7 of its value
+VALS_SCALES = [0.0, 5.0e-9, 0.5, 0.5 * (1.0 + 1.0e-7)]
 DIM = 3
 
 
-def _ops():
+def _ops(vals=VALS):
     ops = []
     for i in range(DIM):
         for j in range(DIM):
-            for v in VALS:
+            for v in vals:
                 ops.append(["set", i, j, v])
     return ops
 
@@ -87,10 +90,10 @@ def execute(hist):
             viol.append(("diagonal-not-minus-column-sum", "K[%d,%d]=%r expected %r"
                          % (j, j, D[j, j], exp), None))
             break
-    key = [init, numpy.round(D, 9).tolist()]
+    key = [init, D.tolist()]        # exact stored numbers (no rounding: scales differ by 1e8)
     return {"key": key, "enabled": execute.ops, "violations": viol[:3],
             "nontrivial": any(op[1] != op[2] and op[3] != 0 for op in hist),
-            "outcome": numpy.round(D, 6).tolist()}
+            "outcome": D.tolist()}
 
 
 execute.init = "zeros"
@@ -151,17 +154,27 @@ def eval_case(case):
         inits += [([1 if i == k else 0 for i in range(n)], "int-list") for k in range(n)]
         inits += [(numpy.array([1 if i == 0 else 0 for i in range(n)]), "int-array"),
                   (tuple(1.0 / n for i in range(n)), "float-tuple")]
+        # the statement speaks of the SUM of the populations, not of normalised vectors
+        inits += [(numpy.array([2.0, 1.0] + [0.0] * (n - 2)), "float-array-sum-3"),
+                  ([0.25] + [0.0] * (n - 2) + [0.25], "float-list-sum-half"),
+                  (numpy.array([3] + [0] * (n - 2) + [1]), "int-array-sum-4"),
+                  (numpy.full(n, 1.0e-6), "float-array-sum-tiny")]
+        bound1 = bound
         for k, (pin, pkind) in enumerate(inits):
             p0 = numpy.array(pin, dtype=float)
+            s0 = float(p0.sum())
+            bound = bound1 * max(1.0, float(numpy.linalg.norm(p0))) if s0 >= 1.0 \
+                else bound1 * float(numpy.linalg.norm(p0)) + 1e-18
             arg = pin.copy() if isinstance(pin, numpy.ndarray) else type(pin)(pin)
             pops = numpy.asarray(prop.propagate(arg), dtype=float)
             if pops.shape != (Nt, n):
                 viol.append(("propagate/shape", "shape %r" % (pops.shape,), None))
                 break
             s = pops.sum(axis=1)
-            if numpy.max(numpy.abs(s - 1.0)) > 1e-10:
-                viol.append(("propagate/sum-not-conserved", "%s: max |sum p - 1| = %g"
-                             % (case["gen"], numpy.max(numpy.abs(s - 1.0))), None))
+            if numpy.max(numpy.abs(s - s0)) > 1e-10 * s0:
+                viol.append(("propagate/sum-not-conserved", "%s: p0=%s (%s) max |sum p(t) - sum "
+                             "p(0)| = %g" % (case["gen"], p0.tolist(), pkind,
+                                             numpy.max(numpy.abs(s - s0))), None))
             if pops.min() < -bound:
                 viol.append(("propagate/negative-population", "%s: min p = %g, bound %g"
                              % (case["gen"], pops.min(), bound), None))
@@ -320,19 +333,27 @@ def replay(case):
 
 def run(run):
     run.rule = ("H: BFS over every set_rate((i,j),v) history, i,j in 0..2 (incl. diagonal), "
-                "v in {0,0.5,2}, from a zero matrix and from a data-constructed matrix. G: "
-                "generator x time axis x {propagate all unit vectors | propagation matrix on every "
+                "v in {0,0.5,2} (and, to a smaller depth, v in {0, 5e-9, 0.5, 0.5(1+1e-7)}: rates on "
+                "scales differing by 1e8 and corrections of 1e-7 of a value), from a zero matrix and "
+                "from a data-constructed matrix; stored numbers compared exactly. G: "
+                "generator x time axis x {propagate all unit vectors in four containers and vectors whose "
+                "sum is 3, 1/2, 4 (integers) and 3e-6 - the sum at every stored time must be the "
+                "initial sum | propagation matrix on every "
                 "sub-axis (start index, stride, length)}; non-trivial = an off-diagonal non-zero "
                 "assignment / a proper sub-axis")
     run.assumptions = ["reference exponential: scipy.linalg.expm (Pade)",
                        "truncation bound n*sup||T^k||*sup||E^k||*||T-E|| of the order-4 expansion, "
                        "computed per case; factor 2 allowed"]
     depth = 4 if run.tier == "quick" else 7
-    for init in ("zeros", "data"):
+    for init, vals, dep in (("zeros", VALS, depth), ("data", VALS, depth),
+                            ("zeros", VALS_SCALES, 3 if run.tier == "quick" else 5),
+                            ("data", VALS_SCALES, 3 if run.tier == "quick" else 5)):
         execute.init = init
+        execute.ops = _ops(vals)
         n0 = len(run.viol)
-        run_bfs(run, execute, depth, cap_s=20 if run.tier == "quick" else 300,
-                section="H-set_rate-histories-from-" + init)
+        run_bfs(run, execute, dep, cap_s=20 if run.tier == "quick" else 300,
+                section="H-set_rate-histories-from-" + init
+                + ("" if vals is VALS else "-values-on-different-scales"))
         for j in range(n0, len(run.viol)):
             k, what, case, det = run.viol[j]
             case = dict(case or {})
@@ -340,4 +361,7 @@ def run(run):
             run.viol[j] = (k, what, case, det)
     run_grid(run, grid_cases(run.tier), eval_case, section="G-dynamics",
              cap_s=30 if run.tier == "quick" else 400)
-    run.bounds = {"set_rate_depth": depth, "generators": list(GENERATORS)}
+    run.bounds = {"set_rate_depth": depth, "generators": list(GENERATORS),
+                  "set_rate_depth_values_on_different_scales": 3 if run.tier == "quick" else 5,
+                  "set_rate_values": [VALS, VALS_SCALES],
+                  "initial_population_sums": [1.0, 3.0, 0.5, 4.0, "n*1e-6"]}
